@@ -26,8 +26,12 @@ class SimFile(io.BufferedIOBase):
     """
 
     def __init__(self, data: bytes = b'', clock: EventClock = None, name: str = '<sim>', writable: bool = False,
-                 log: bool = True, foreign_fileno: bool = False):
+                 log: bool = True, foreign_fileno: bool = False, mode_attr=None):
         super().__init__()
+        #: ``mode_attr``: binary file objects differ in what their ``mode`` attribute says: open(..., 'rb') -> 'rb', io.BytesIO has
+        #: none, zipfile members say 'r', gzip.GzipFile has an integer there.  None = no attribute.
+        if mode_attr is not None:
+            self.mode = mode_attr
         #: ``foreign_fileno``: like gzip.GzipFile or a stream wrapped around a device, the object HAS a file descriptor, but
         #: the descriptor is not the byte stream that read() delivers (here: an anonymous 64 byte file)
         self._fd = None
